@@ -225,7 +225,12 @@ def _check_one(pc, insts, goal, timeout_ms, use_cvc5):
         if r == z3.unsat:
             return "discharged", "z3", None, None, h
         if r == z3.sat:
-            return "failed", "z3", s.model(), s.to_smt2(), h
+            mdl = s.model()
+            if model_ok(mdl, list(pc) + list(insts) + [z3.Not(goal)]):
+                return "failed", "z3", mdl, s.to_smt2(), h
+            # the sequence solver occasionally answers sat with a model that falsifies a
+            # hypothesis: such an answer is discarded (treated as unknown for this attempt)
+            continue
         if k == 0 and use_cvc5:
             smt2 = s.to_smt2()
             if "last_indexof" not in smt2:
@@ -253,9 +258,23 @@ def _check_one(pc, insts, goal, timeout_ms, use_cvc5):
             if not _has_quant(i):
                 s.add(i)
         s.add(z3.Not(goal))
-        if guarded_check(s, short) == z3.sat:
+        if guarded_check(s, short) == z3.sat and model_ok(s.model(), qf + [z3.Not(goal)]):
             return "failed", "z3(candidate: quantified hypotheses dropped)", s.model(), s.to_smt2(), h
     return "unknown", "z3" + ("+cvc5" if use_cvc5 else ""), None, smt2, h
+
+
+def model_ok(mdl, formulas):
+    """every quantifier-free formula must evaluate to true under the model"""
+    for f in formulas:
+        if _has_quant(f):
+            continue
+        try:
+            v = z3.simplify(mdl.eval(f, model_completion=True))
+        except z3.Z3Exception:
+            continue
+        if z3.is_false(v):
+            return False
+    return True
 
 
 def _has_quant(e):
